@@ -206,6 +206,8 @@ where
             })
             .await
             .map_err(Error::from)?;
+            #[cfg(sos_verif)]
+            sos_core::verif::crash_point("db.evlog.insert.after-commit");
 
         if delete_before {
             self.tree = CommitTree::new();
@@ -510,6 +512,8 @@ where
             })
             .await
             .map_err(Error::from)?;
+            #[cfg(sos_verif)]
+            sos_core::verif::crash_point("db.evlog.rewind.after-delete");
 
         // Update merkle tree
         self.tree = tree;
